@@ -18,6 +18,10 @@ BUDGET = {"quick": 40.0, "thorough": 600.0}
 RUNS = {"quick": 12000}
 CROSS_BACKEND = True
 LOCS = ["en", "fr", "de", "ru", "pl", "ja", "he", "cs"]
+SAME_OFFSET_PAIRS = [("Europe/Paris", "Europe/Madrid"), ("Europe/Paris", "Europe/Berlin"), ("America/New_York", "America/Toronto"),
+                     ("Asia/Tokyo", "Asia/Seoul"), ("Asia/Kolkata", "Asia/Colombo"), ("Australia/Sydney", "Australia/Melbourne"),
+                     ("America/Los_Angeles", "America/Vancouver"), ("Pacific/Auckland", "Antarctica/McMurdo"),
+                     ("America/Argentina/Buenos_Aires", "America/Montevideo"), ("Etc/GMT+12", "Etc/GMT+12")]
 
 
 def _fields(r, lo=1, hi=9999):
@@ -83,6 +87,14 @@ def _pair(r):
         f1, f2 = f2, f1
     z1 = r.choice(gen_dt.DST_ZONES + gen_dt.PLAIN_ZONES + gen_dt.MIDNIGHT_ZONES)
     z2 = z1 if kind == "zone" else r.choice(gen_dt.DST_ZONES + gen_dt.PLAIN_ZONES)
+    if kind == "mixed" and r.random() < 0.45:
+        # differently named zones that share their UTC offset (the shift to UTC moves both alike)
+        z1, z2 = r.choice(SAME_OFFSET_PAIRS)
+        if r.random() < 0.5:
+            z1, z2 = z2, z1
+        # times of day close to midnight so that the shift changes the calendar date
+        f1[3:] = r.choice([[0, 30, 0, 0], [1, 0, 0, 0], [23, 30, 0, 0], [0, 0, 0, 0], [22, 15, 0, 1]])
+        f2[3:] = r.choice([[0, 30, 0, 0], [1, 0, 0, 0], [23, 30, 0, 0], [0, 0, 0, 0], f1[3:]])
     if kind == "zone" and r.random() < 0.25:
         # start on (either occurrence of) a repeated wall time of the zone, end shortly after or later
         trans = [t for t in tzdb.transitions(z1) if t[2] < t[1] and 1973 <= tzdb.us_to_fields(t[0] * 10**6)[0] <= 2036]
@@ -252,7 +264,8 @@ def l2_check(run):
                     if o[1][4] != o[2][4]:
                         viols.append({"oracle": "L2.utc_decomposition", "label": "utc_pair", "actor": a["name"], "i": i, "op": op,
                                       "sim_obs": [o[1][4], o[2][4]], "detail": {"a": op[1], "b": op[2]},
-                                      "facts": {"rule": "utc_decomposition", "utc_shift_crosses_day": _crosses_month(op[1]) or _crosses_month(op[2])}})
+                                      "facts": {"rule": "utc_decomposition", "utc_shift_crosses_day": _crosses_month(op[1]) or _crosses_month(op[2]),
+                                                "rust_shift_edge": bool(_rust_shift_edge(op[1]) or _rust_shift_edge(op[2]))}})
                 continue
             if not (isinstance(tgt, dict) and tgt.get("$") == "p"):
                 continue
@@ -298,11 +311,66 @@ def _crosses_month(spec):
         return None
 
 
+def _rust_shift_edge(spec):
+    """does the hand-written UTC shift of the compiled precise_diff leave the calendar for this
+    endpoint?  (It moves the day by +-1 without month roll-over and tests `> 24`/`> 60` where
+    `>=` is meant, so a shifted hour of exactly 24 - or minute/second of exactly 60 - or a day
+    of 0 / days_in_month+1 is carried as is.)  This is the input class of the open known
+    finding; a disagreement outside it is a new violation."""
+    try:
+        t = tzdb.wall_to_instants(spec["tz"], spec["f"])
+        off = int(tzdb.render(spec["tz"], t[-1] if spec.get("fold", 1) else t[0])[1])
+    except Exception:
+        return None
+    if off == 0:
+        return False
+    y, mo, d, h, mi, se = spec["f"][:6]
+
+    def tdiv(a, b):            # Rust integer division truncates toward zero
+        q = abs(a) // b
+        return q if a >= 0 else -q
+
+    h -= tdiv(off, 3600)
+    off -= tdiv(off, 3600) * 3600
+    mi -= tdiv(off, 60)
+    off -= tdiv(off, 60) * 60
+    se -= off
+    edge = False
+    if se < 0:
+        se += 60
+        mi -= 1
+    elif se > 60:
+        se -= 60
+        mi += 1
+    elif se == 60:
+        edge = True
+    if mi < 0:
+        mi += 60
+        h -= 1
+    elif mi > 60:
+        mi -= 60
+        h += 1
+    elif mi == 60:
+        edge = True
+    if h < 0:
+        h += 24
+        d -= 1
+    elif h > 24:
+        h -= 24
+        d += 1
+    elif h == 24:
+        edge = True
+    if d < 1 or d > _cal.monthrange(y, mo)[1]:
+        edge = True
+    return edge
+
+
 def xb_facts(sc, diff):
     """classify a compiled-vs-pure-Python disagreement for known-finding matching."""
     meta = sc["pool_meta"]
     mixed = [m for m in meta if m["kind"] == "mixed"]
-    return {"mixed_zone_crossing_day": bool(mixed) and any(_crosses_month(m["a"]) or _crosses_month(m["b"]) for m in mixed)}
+    return {"mixed_zone_crossing_day": bool(mixed) and any(_crosses_month(m["a"]) or _crosses_month(m["b"]) for m in mixed),
+            "rust_shift_edge": bool(mixed) and any(_rust_shift_edge(m["a"]) or _rust_shift_edge(m["b"]) for m in mixed)}
 
 
 def _shape(m):
